@@ -311,10 +311,56 @@ def acks_consumed(an, step_lo, step_hi, types):
 # C02 / C03 / C17(retransmission part)
 # ------------------------------------------------------------------------------------------------
 
+def ack_effects(run, an, tk, prop, kinds):
+    """A consumed acknowledgement has its effect at once: the operation leaves the in-flight state
+    (PUBACK, SUBACK, UNSUBACK, failing PUBREC, PUBCOMP) or moves to the release phase (PUBREC)."""
+    out = []
+    for (when, side, p) in an.events:
+        if side != "S" or p["type"] not in kinds:
+            continue
+        st = run.steps[when[0]]
+        if st.state is None or when[0] == 0:
+            continue
+        prev = None
+        for s2 in reversed(run.steps[: when[0]]):
+            if s2.state is not None:
+                prev = s2.state
+                break
+        if prev is None or prev.live != "1" or prev.gen != st.state.gen:
+            continue
+        if any(re.match(r"ret \w+ err (Peer.InvalidPacket|Resource.PacketTooLarge|Resource.InflightExhausted)", e) for e in st.events):
+            continue
+        # only the last acknowledgement for an id within a step is judged (several may be consumed)
+        later = [q for (w2, s2, q) in an.events if s2 == "S" and w2[0] == when[0] and w2 > when and q.get("id") == p.get("id")]
+        if later:
+            continue
+        i = p.get("id")
+        kind = None
+        for t in tk.tokens:
+            if t["id"] == i and t["born"] < when[0] and (t["end_step"] is None or t["end_step"] >= when[0]):
+                kind = t["kind"]
+        a = st.state
+        if p["type"] == "PUBACK" and kind == "PUBLISH1" and i in prev.ret_ids() and i in a.ret_ids():
+            out.append(V(prop, "ack-not-honoured", f"PUBACK {i} consumed but the publish is still retained: {a.raw}", step=when[0]))
+        if p["type"] == "PUBREC" and kind == "PUBLISH2" and i in prev.ret_ids():
+            if norm_rc(p["rc"]) < 0x80:
+                if i in a.ret_ids() or i not in a.rel_ids():
+                    out.append(V(prop, "ack-not-honoured", f"successful PUBREC {i} consumed but the exchange did not move to the release phase: {a.raw}", step=when[0]))
+            elif i in a.ret_ids() or i in a.rel_ids():
+                out.append(V(prop, "ack-not-honoured", f"failing PUBREC {i} consumed but the exchange continues: {a.raw}", step=when[0]))
+        if p["type"] == "PUBCOMP" and i in prev.rel_ids() and i in a.rel_ids():
+            out.append(V(prop, "ack-not-honoured", f"PUBCOMP {i} consumed but the release entry remains: {a.raw}", step=when[0]))
+        if p["type"] == "SUBACK" and kind == "SUBSCRIBE" and i in prev.ret_ids() and i in a.ret_ids():
+            out.append(V(prop, "ack-not-honoured", f"SUBACK {i} consumed but the SUBSCRIBE is still retained", step=when[0]))
+        if p["type"] == "UNSUBACK" and kind == "UNSUBSCRIBE" and i in prev.ret_ids() and i in a.ret_ids():
+            out.append(V(prop, "ack-not-honoured", f"UNSUBACK {i} consumed but the UNSUBSCRIBE is still retained", step=when[0]))
+    return out
+
+
 def c02(run, an=None, tk=None):
     an = an or Analysis(run)
     tk = tk or Tokens(run, an)
-    out = []
+    out = ack_effects(run, an, tk, "C02", ("PUBACK",))
     for t in tk.tokens:
         if t["kind"] != "PUBLISH1":
             continue
@@ -403,7 +449,7 @@ def sent_check(run, an, tk, prop, kind):
 def c03(run, an=None, tk=None):
     an = an or Analysis(run)
     tk = tk or Tokens(run, an)
-    out = []
+    out = ack_effects(run, an, tk, "C03", ("PUBREC", "PUBCOMP"))
     for t in tk.tokens:
         if t["kind"] != "PUBLISH2":
             continue
@@ -547,15 +593,12 @@ def c04(run, an=None):
                     continue          # e.g. the ack does not fit the broker's maximum packet size (C14)
                 if expect_delivery:
                     if not msgs:
-                        # the packet may be consumed by one step and delivered only by a later drive/poll:
-                        # look ahead to the next message line
-                        nxt = next_msg(run, when[0])
-                        if nxt is None:
-                            if undelivered_is_explained(run, when[0]):
-                                continue
-                            out.append(V("C04", "not-delivered", f"PUBLISH qos {p['qos']} id {p['id']} consumed at step {when[0]} never delivered", step=when[0]))
+                        # the packet is handled in the very step that completes it (no await lies between
+                        # the last read and the hand-over), unless that step reports an error
+                        if any(e.startswith("ret ") and " err " in e for e in st.events):
                             continue
-                        msgs = [nxt]
+                        out.append(V("C04", "not-delivered", f"PUBLISH qos {p['qos']} id {p['id']} consumed at step {when[0]} but not handed to the application", step=when[0]))
+                        continue
                     kv = parse_msg_line(msgs[0])
                     exp = dict(topic=p["topic"].hex() or "-", payload=p["payload"].hex() or "-", qos=str(p["qos"]),
                                retain="1" if p["retain"] else "0", props=p["props_raw"].hex() or "-")
@@ -956,6 +999,10 @@ def c09(run, an=None):
     an = an or Analysis(run)
     out = []
     cfg = run.cfg
+    # whatever the broker cannot decode is not "exactly what the application asked to send"
+    for v in c01(run, an):
+        if v["kind"] == "malformed-stream" and v["finding"] is None:
+            out.append(V("C09", "undecodable", v["detail"], step=v["step"]))
     # CONNECT of every transport
     assigned = unhex(cfg.get("cid", "-"))
     for t, n in enumerate(an.nets):
@@ -997,6 +1044,10 @@ def c09(run, an=None):
                 continue
             pk = first_packet(an, st, ident, {"publish": "PUBLISH", "subscribe": "SUBSCRIBE", "unsubscribe": "UNSUBSCRIBE"}[op], req)
             if pk is None:
+                # the operation returned its handle, so its packet was written and flushed on this connection
+                t = st.net_after
+                if an.nets[t]["cerr"] is None and not an.nets[t]["ctail"] and not any(p2.get("id") == ident and p2["when"] <= (st.idx, 10 ** 6) for p2 in an.nets[t]["client"]):
+                    out.append(V("C09", "accepted-request-not-on-wire", f"{e}: no packet with identifier {ident} was written on transport {t}", step=st.idx))
                 continue
             out += compare_request(req, pk, kind, st)
         # QoS 0 publishes
@@ -1154,6 +1205,36 @@ def c10(run, an=None):
                             if not nxt:
                                 out.append(V("C10", "disconnect-after-pingresp", f"PINGRESP consumed at step {resp[0]['when'][0]} but Disconnected at {tm}", step=st.idx))
                         break
+        # ... and not later than the bound: a tick that reaches PINGREQ + 5 s while the application
+        # waits in poll/recv must end the wait
+        clock = 0
+        times = {}
+        for st in run.steps:
+            if st.op == "tick" and len(st.tok) == 2 and st.tok[1].isdigit() and "bad-op" not in st.events:
+                clock += int(st.tok[1])
+            times[st.idx] = clock
+        for p in pings:
+            tp = p["flush_time"]
+            if tp is None:
+                continue
+            answered = [q for q in n["server"] if q["type"] == "PINGRESP" and q["when"] > p["when"]]
+            later_ping = [q for q in pings if q["when"] > p["when"]]
+            for st in run.steps[p["when"][0] + 1:]:
+                if st.net_after != t or st.state is None:
+                    break
+                if answered and answered[0]["when"][0] <= st.idx:
+                    break
+                if later_ping and later_ping[0]["when"][0] <= st.idx:
+                    break
+                if any(e.startswith("ret ") or e in ("cancel", "drop") for e in st.events) and not (st.op == "tick"):
+                    if any(re.match(r"ret \w+ err", e) for e in st.events) or any(e in ("cancel", "drop") for e in st.events):
+                        break
+                if st.op == "tick" and times[st.idx] >= tp + 5000000:
+                    prevs = run.steps[st.idx - 1]
+                    waiting = prevs.state is not None and prevs.state.live == "1" and suspended_in_wait(run, st.idx)
+                    if waiting and not any(re.match(r"ret (poll|recv) err Disconnected", e) for e in st.events):
+                        out.append(V("C10", "late-timeout", f"PINGREQ completed at {tp} µs and was not answered; at {times[st.idx]} µs the wait in poll/recv goes on: {[e for e in st.events][:4]}", step=st.idx))
+                    break
         if not strict or k == 0:
             continue
         # cadence: consecutive completed client packets at most K apart while waiting in poll/recv
@@ -1170,6 +1251,25 @@ def c10(run, an=None):
                 f = "F12" if k < 5 else None
                 out.append(V("C10", "gap-exceeds-keepalive", f"transport {t}: last packet at {last_t}, still waiting at {end_time}, keep-alive {k} s", step=end_step, finding=f))
     return out
+
+
+def suspended_in_wait(run, idx):
+    """Before step idx a poll/recv was suspended and blocked on reading (its last I/O event was rp/rs)."""
+    for st in reversed(run.steps[:idx]):
+        if any(e.startswith("ret ") or e in ("cancel", "drop") for e in st.events):
+            return False
+        io = st.io()
+        if io:
+            if not io[-1].startswith(("rp ", "rs ")):
+                return False
+            # find the operation that is suspended
+            for s2 in reversed(run.steps[: st.idx + 1]):
+                if s2.op in ("poll", "recv"):
+                    return True
+                if s2.op in ("publish", "subscribe", "unsubscribe", "disconnect", "drive", "connect"):
+                    return False
+            return False
+    return False
 
 
 def consumed_disconnect(an, t, step):
@@ -1268,37 +1368,72 @@ def benign_start(run):
     return None
 
 
-def c12(run, an=None):
-    an = an or Analysis(run)
+def connect_attempts(run, an):
+    """(connect step, result step, result line, transport, steps) for every connect directive."""
     out = []
-    b = benign_start(run)
     for st in run.steps:
-        if st.op != "connect":
+        if st.op != "connect" or st.state is None:
             continue
-        healthy = any(c.startswith("# healthy-connect") for c in st.comments) or (b is not None and st.idx >= b)
-        if not healthy:
-            continue
-        # find the result
+        steps = []
         res = None
         for s2 in run.steps[st.idx:]:
+            if s2.idx > st.idx and s2.op in ("connect", "publish", "subscribe", "unsubscribe", "disconnect", "poll", "recv", "drive", "drop", "cancel"):
+                break
+            steps.append(s2)
             r = [e for e in s2.events if e.startswith("ret connect")]
             if r:
                 res = (s2, r[0])
                 break
-            if s2.idx > st.idx and s2.op == "connect":
-                break
+        out.append((st, res, st.net_after, steps))
+    return out
+
+
+def healthy(run, an, attempt):
+    """The transport performed no fault, nothing was cancelled, and the broker's answer is a valid
+    CONNACK with a success code whose properties a client must accept."""
+    st, res, t, steps = attempt
+    if res is None:
+        return False
+    for s2 in steps:
+        if any(e.startswith(("we ", "wz ", "fe ", "re ", "rz ")) or e == "cancel" for e in s2.events if not (s2 is st and e == "cancel")):
+            return False
+    # judged by what the broker SENT on this transport (not by what the client made of it)
+    try:
+        pkt, end = parse_server_packet(bytes(run.nets[t]["rx"]), 0, strict=True)
+    except (Malformed, Incomplete):
+        return False
+    if pkt["type"] != "CONNACK" or pkt["rc"] >= 0x80:
+        return False
+    for pid, v in pkt.get("props", []):
+        if pid == 0x12 and len(v) > 64:
+            return False
+        if pid == 0x24 and v > 1:
+            return False
+    return True
+
+
+def c12(run, an=None):
+    an = an or Analysis(run)
+    out = []
+    for attempt in connect_attempts(run, an):
+        st, res, t, steps = attempt
         if res is None:
             continue
         if " ok " not in res[1]:
-            f = "F9" if "Resource.BufferTooSmall" in res[1] else None
-            out.append(V("C12", "reconnect-failed", f"{res[1]} on a healthy transport", step=res[0].idx, finding=f))
+            if healthy(run, an, attempt):
+                f = "F9" if "Resource.BufferTooSmall" in res[1] else None
+                out.append(V("C12", "reconnect-failed", f"{res[1]} on a healthy transport with a conformant broker", step=res[0].idx, finding=f))
             continue
-        t = st.net_after
         n = an.nets[t]
         if not n["client"] or n["client"][0]["type"] != "CONNECT" or n["client"][0]["start"] != 0:
             out.append(V("C12", "no-complete-connect-first", f"transport {t}", step=st.idx))
-        if res[0].state and res[0].state.rd not in ("0/-",):
-            out.append(V("C12", "partial-inbound-carried-over", res[0].state.rd, step=res[0].idx))
+        s = res[0].state
+        if s is not None:
+            if s.rd not in ("0/-",):
+                out.append(V("C12", "partial-inbound-carried-over", s.rd, step=res[0].idx))
+            bad = [e for e in s.ret if e[3] != "w0"] + [e for e in s.rel if e[2] != "w0"] + [e for e in s.ctl if e[3] != "w0"]
+            if bad:
+                out.append(V("C12", "partial-outbound-carried-over", f"after connect: {s.raw}", step=res[0].idx))
     return out
 
 
@@ -1328,6 +1463,11 @@ def c16(run, an=None):
                     cur = None
                 elif e.startswith("ret ") or e == "cancel":
                     cur = None
+    tk = Tokens(run, an)
+    for kind in ("PUBLISH1", "PUBLISH2", "SUBSCRIBE", "UNSUBSCRIBE"):
+        for v in sent_check(run, an, tk, "C16", kind)[:1]:
+            v["kind"] = "marked-sent-but-never-transmitted"
+            out.append(v)
     b = benign_start(run)
     if b is not None and run.steps and run.ended is None:
         # (1) blocked on input while outbound work is pending: the operation waits for the broker
@@ -1386,6 +1526,9 @@ def c14(run, an=None):
         for p in n["client"][1:]:
             if p["len"] > limit:
                 out.append(V("C14", "packet-exceeds-maximum", f"transport {t}: {p['type']} of {p['len']} bytes, broker maximum {limit}", step=p["when"][0]))
+    for st in run.steps:
+        if any(re.match(r"ret (poll|recv|drive) err Peer.InvalidPacket", e) for e in st.events) and st.state is not None and st.state.live == "1":
+            out.append(V("C14", "oversize-inbound-did-not-end-connection", "an inbound packet was rejected but the handle is still live", step=st.idx))
     prev = None
     for st in run.steps:
         for e in st.events:
@@ -1426,8 +1569,8 @@ def c17(run, an=None, tk=None):
             end = off + ln
         if end > cap:
             out.append(V("C17", "arena-overflow", s.raw, step=st.idx))
-        if not s.ret and not s.rel and s.used != 0 and st.op not in ("publish", "connect", "d", "go", "cancel"):
-            pass
+        if s.live == "1" and not s.ret and not s.rel and s.q != s.qmax:
+            out.append(V("C17", "slot-leak", f"nothing is in flight but the send quota is {s.q} of {s.qmax}: {s.raw}", step=st.idx))
     return out
 
 
@@ -1441,6 +1584,10 @@ def c17_twin(aged, fresh):
             if any(c.startswith("# probe-from-here") for c in st.comments):
                 start = st.idx
         if start is None:
+            return None
+        # comparable only when everything has been acknowledged and the connection is up
+        before = run.steps[start - 1].state if start > 0 else None
+        if before is None or before.live != "1" or before.ret or before.rel or before.ctl:
             return None
         res = []
         for st in run.steps[start:]:
@@ -1457,8 +1604,13 @@ def c17_twin(aged, fresh):
 
 def c18(run, an=None, tk=None):
     an = an or Analysis(run)
-    out = []
+    tk = tk or Tokens(run, an)
+    out = ack_effects(run, an, tk, "C18", ("PUBACK", "PUBREC", "PUBCOMP", "SUBACK", "UNSUBACK"))
     handles = []          # dict(kind,id,gen,issued_step, done_step)
+    fresh_steps = []      # steps at which a success CONNACK with session-present 0 was consumed
+    for t, n in enumerate(an.nets):
+        if n["server"] and n["server"][0]["type"] == "CONNACK" and n["server"][0]["rc"] < 0x80 and not n["server"][0]["session_present"]:
+            fresh_steps.append(n["server"][0]["when"][0])
     for st in run.steps:
         for e in st.events:
             m = re.match(r"ret (publish|subscribe|unsubscribe) ok op (\d+) (\w+) (\d+) (\d+)", e)
@@ -1502,7 +1654,7 @@ def c18(run, an=None, tk=None):
             if h["k"] >= len(st.h):
                 continue
             got = st.h[h["k"]]
-            if s.gen != h["gen"]:
+            if s.gen != h["gen"] or any(h["issued"] < f <= st.idx for f in fresh_steps):
                 want = "i"
             elif h["done"] is not None and h["done"] <= st.idx:
                 want = "c"
@@ -1604,6 +1756,38 @@ def c19(run, an=None):
                     out.append(V("C19", "legal-request-refused", f"{st.directive} -> {r}", step=st.idx, finding="F11"))
         if st.state is not None:
             prev = st
+    # requests on a dead handle leave nothing behind
+    prev = None
+    for st in run.steps:
+        if st.op in ("publish", "subscribe", "unsubscribe") and st.state is not None and prev is not None and prev.state is not None and prev.state.live == "0":
+            a, b = prev.state, st.state
+            if (a.ret_ids(), a.rel_ids(), a.q, a.pid) != (b.ret_ids(), b.rel_ids(), b.q, b.pid) or len(prev.h) != len(st.h):
+                out.append(V("C19", "dead-handle-request-left-trace", f"{st.directive[:80]}: {a.raw} -> {b.raw}", step=st.idx))
+        if st.state is not None:
+            prev = st
+    # the returned handle matches the QoS actually used
+    for t, n in enumerate(an.nets):
+        ack = an.connack(t)
+        if ack is None or ack["rc"] >= 0x80:
+            continue
+        mq = dict(ack.get("props", [])).get(0x24)
+        for st in run.steps:
+            if st.op != "publish" or st.net_after != t or len(st.tok) < 2 or not st.tok[1].isdigit():
+                continue
+            req = int(st.tok[1])
+            eff = min(req, mq) if (mq is not None and run.cfg.get("dg") == "1") else req
+            # result of this publish
+            for s2 in run.steps[st.idx:]:
+                r = [e for e in s2.events if e.startswith("ret publish")]
+                if r:
+                    m = re.match(r"ret publish ok (none|op \d+ (\w+))", r[0])
+                    if m and find_request(run, s2, "publish") is st:
+                        got = 0 if m.group(1) == "none" else {"pub1": 1, "pub2": 2}.get(m.group(2), -1)
+                        if got != eff:
+                            out.append(V("C19", "handle-does-not-match-qos", f"{st.directive[:60]}: Maximum QoS {mq}, downgrade {run.cfg.get('dg')}: expected QoS {eff}, result {r[0]}", step=s2.idx))
+                    break
+                if s2.idx > st.idx and s2.op in ("publish", "subscribe", "unsubscribe", "disconnect", "poll", "recv", "drive", "connect", "cancel", "drop"):
+                    break
     # downgrade: no PUBLISH above the broker's Maximum QoS when auto-downgrade is on
     if run.cfg.get("dg") == "1":
         for t, n in enumerate(an.nets):
